@@ -71,7 +71,12 @@ class KnownMultiplierStringType(per.KnownMultiplierStringType):
 
     def encode(self, data, encoder):
         if self.has_extension_marker:
-            encoder.append_bit(0)
+            if (self.number_of_bits is None
+                or self.minimum <= len(data) <= self.maximum):
+                encoder.append_bit(0)
+            else:
+                raise NotImplementedError(
+                    'String size extension is not yet implemented.')
 
         if self.number_of_bits is None:
             return self.encode_unbound(data, encoder)
